@@ -274,6 +274,14 @@ def eval_case(c):
                         key = 'takeuchi-y6-cross-index'
                     elif x2max > 3.0:
                         key = 'takeuchi-phi-psi-series-truncated'
+                if fam.startswith('kam'):
+                    # Kamata solid families: where z is evaluated in its Taylor branch (|k^2 r0^2| <= 0.1, open finding z-taylor-series-wrong-powers: relative
+                    # error of z up to ~1e-6) the starting vector is inexact at that level; a larger disagreement is not explained by it
+                    r0_ = r0f * R
+                    kp_, kn_ = k2_values(c, mu, K, fam.endswith('static'))
+                    args_ = [abs(kp_) * r0_ ** 2, abs(kn_) * r0_ ** 2] + ([abs(w * w * rho / mu) * r0_ ** 2] if fam.endswith('incomp') else [])
+                    if min(args_) <= 0.1 and err <= 1e-5 * max(1.0, float(np.max(np.abs(ref[1])))):
+                        key = 'z-taylor-series-wrong-powers'
                 if fam == 'liq_dynamic_core_tak':
                     gam = 4 * math.pi * G * rho / 3
                     zl = abs((w * w + 4 * gam - l * (l + 1) * gam ** 2 / (w * w)) / (K / rho)) * (r0f * R) ** 2
